@@ -520,6 +520,7 @@ Section UnmarshalLoops.
           do p <- pad_for tcode off;
           do r <- one tsig data (off + p) le fds;
           let '(nb, v) := r in
+          if nb =? 0 then Err EMarshal else         (* an element that consumed nothing *)
           do r2 <- uarr_loop n' tsig tcode data (off + p + nb) end_off le fds;
           let '(off2, vs) := r2 in
           Ok (off2, v :: vs)
